@@ -228,13 +228,40 @@ func TestIndexPathsExhaustive(t *testing.T) {
 			if len(path) > 0 {
 				idx++
 				if idx%evid.NShards() == evid.Shard() {
-					for op := 0; op < 4; op++ {
+					for op := 0; op < 7; op++ {
 						var ix []*gen.Node
 						for _, k := range path {
 							ix = append(ix, sgen.Lit(k))
 						}
 						prog := []*gen.Node{gen.NSet("o", sgen.Lit(sh))}
 						switch op {
+						case 4, 5, 6:
+							// the keys are expressions that leave a record, fail, or write the point when they are evaluated:
+							// a path is followed key by key, and the keys behind the step that ends it are not evaluated
+							if len(path) < 2 {
+								continue
+							}
+							var kx []*gen.Node
+							for ki, k := range path {
+								switch {
+								case op == 4 || ki == 0:
+									kx = append(kx, gen.NCall("pval", sgen.Lit(k)))
+								case op == 5:
+									kx = append(kx, gen.NBin("+", sgen.Lit(k), gen.NBin("*", gen.NBin("/", gen.NInt(1), id("z0")), gen.NInt(0))))
+								default:
+									kx = append(kx, gen.NBin("+", sgen.Lit(k), gen.NCall("len", gen.NCall("add_key", id(fmt.Sprintf("leak%d", ki)), gen.NInt(1)))))
+								}
+							}
+							if op == 5 || op == 6 {
+								if _, isStr := path[len(path)-1].(string); isStr {
+									continue // the failing key is built with arithmetic on an integer key
+								}
+								if _, isStr := path[1].(string); isStr && len(path) > 2 {
+									continue
+								}
+								prog = append(prog, gen.NSet("z0", gen.NInt(0)))
+							}
+							prog = append(prog, gen.NSet("r", gen.NIndex(id("o"), kx...)), gen.NCall("probe", gen.NStr("r"), id("r")))
 						case 0:
 							prog = append(prog, gen.NCall("probe", gen.NStr("r"), gen.NIndex(id("o"), ix...)))
 						case 1:
